@@ -8,6 +8,8 @@ CONSTANTS
   BaseCases = TRUE
   NsSet = {"mdPrefix", "selfPrefix", "ancestorPrefix", "foreignPrefix", "noNs", "undeclared"}
   NsWide = FALSE
+  ChecksFirstAttribute = FALSE
+  AttrForms = {"plainThenForeign", "foreignThenPlain", "foreignOnly"}
 INIT Init
 NEXT Next
 INVARIANTS
